@@ -1,13 +1,15 @@
 import SafeNet.Driver.Util
 import SafeNet.Model.Register
 import SafeNet.Model.MerkleReg
+import SafeNet.Model.ClientRegister
 namespace SafeNet.Driver.Register
-open SafeNet.Register SafeNet.MerkleReg
+open SafeNet.Register SafeNet.MerkleReg SafeNet.ClientRegister
 
 structure St where
   ops : List (Nat × Op) := []
   regs : List (Nat × SReg) := []
   crdts : List (Nat × (Nat × MReg)) := []   -- id ↦ (address, state)
+  cregs : List (Nat × CReg) := []           -- client-side registers (autonomi `Register`)
 
 def errName : Err → String
   | .tooManyEntries n => s!"toomany {n}"
@@ -31,8 +33,72 @@ def fillGo (r : SReg) (src : Nat) : Nat → Nat → Nat → List (Nat × Op) →
     | .ok r' => fillGo r' src n (id + 1) (acc + 1) tbl
     | .error _ => fillGo r src n (id + 1) acc tbl
 
+/-- n `write_atop`s with consecutive entry ids; returns the register and the number accepted -/
+def cfillGo (c : CReg) (key len : Nat) : Nat → Nat → Nat → CReg × Nat
+  | 0, _, acc => (c, acc)
+  | n + 1, id, acc =>
+    match writeAtop c id len key with
+    | (c', .ok _) => cfillGo c' key len n (id + 1) (acc + 1)
+    | (c', .error _) => cfillGo c' key len n (id + 1) acc
+
+def cPerms (ws : List String) : Option Perms :=
+  match ws with
+  | ["anyone"] => some .anyone
+  | "writers" :: ks => (natList ks).map .writers
+  | _ => none
+
 def step (st : St) (ws : List String) : St × String :=
   match ws with
+  | "cnew" :: c :: name :: owner :: initid :: initlen :: perms =>
+    match natList [c, name, owner, initid, initlen], cPerms perms with
+    | some [c, name, owner, initid, initlen], some p =>
+      let c0 := CReg.empty (newBase name owner p)
+      if initid = 0 then ({ st with cregs := alSet c c0 st.cregs }, "ok")
+      else match writeAtop c0 initid (max initlen 8) owner with
+        | (c1, .ok _) => ({ st with cregs := alSet c c1 st.cregs }, "ok")
+        | (_, .error e) => (st, s!"err {errName e}")
+    | _, _ => (st, "bad-op")
+  | ["cwrite", c, k, id, len] =>
+    match natList [c, k, id, len] with
+    | some [c, k, id, len] =>
+      match alGet c st.cregs with
+      | some cr =>
+        match writeAtop cr id (max len 8) k with
+        | (cr', .ok _) => ({ st with cregs := alSet c cr' st.cregs }, "ok")
+        | (cr', .error e) => ({ st with cregs := alSet c cr' st.cregs }, s!"err {errName e}")
+      | none => (st, "bad-op")
+    | _ => (st, "bad-op")
+  | ["cfill", c, k, first, n, len] =>
+    match natList [c, k, first, n, len] with
+    | some [c, k, first, n, len] =>
+      match alGet c st.cregs with
+      | some cr =>
+        let (cr', acc) := cfillGo cr k (max len 8) n first 0
+        ({ st with cregs := alSet c cr' st.cregs }, s!"ok {acc}")
+      | none => (st, "bad-op")
+    | _ => (st, "bad-op")
+  | ["cvalues", c] =>
+    match c.toNat?.bind (fun c => alGet c st.cregs) with
+    | some cr => (st, tagNats "values" (sortNats (read cr.crdt)))
+    | none => (st, "bad-op")
+  | ["cstored", c] =>
+    match c.toNat?.bind (fun c => alGet c st.cregs) with
+    | some cr => (st, tagNats "values" (sortNats (read (ofSigned cr.signed).crdt)))
+    | none => (st, "bad-op")
+  | ["cops", c] =>
+    match c.toNat?.bind (fun c => alGet c st.cregs) with
+    | some cr =>
+      let ids := cr.signed.ops.map (·.node)
+      (st, s!"ops {ids.length} {ids.foldl (· + ·) 0} crdt {cr.crdt.dag.length + cr.crdt.orphans.length}")
+    | none => (st, "bad-op")
+  | ["cverify", c] =>
+    match c.toNat?.bind (fun c => alGet c st.cregs) with
+    | some cr =>
+      match verify cr.signed with
+      | .ok () => (st, "ok")
+      | .error (.tooManyEntries n) => (st, s!"err toomany {n}")
+      | .error _ => (st, "err op")
+    | none => (st, "bad-op")
   | "op" :: rest =>
     match natList rest with
     | some (id :: addr :: node :: size :: source :: sig :: sigok :: children) =>
